@@ -153,6 +153,79 @@ def _in_class_scope(value, owner, _depth=0):
     return C().visit(copy.deepcopy(value))
 
 
+def record_fields(call, fn, project):
+    """(field names, ClassInfo | None) when `call` constructs a record — a NamedTuple / dataclass of the package, or a
+    `namedtuple('X', [...])` bound at module level — else None."""
+    if project is None or fn is None or not isinstance(call, ast.Call) or not isinstance(call.func, ast.Name):
+        return None
+    r = project.resolve_name(fn.module, call.func.id)
+    if not r:
+        return None
+    if r[0] == "class" and r[1].node is not None:
+        ci = r[1]
+        is_record = any(unparse(b).split(".")[-1] == "NamedTuple" for b in ci.node.bases) or \
+            any("dataclass" in unparse(d) for d in ci.node.decorator_list)
+        if not is_record:
+            return None
+        fields = [st.target.id for st in ci.node.body if isinstance(st, ast.AnnAssign) and isinstance(st.target, ast.Name) and "ClassVar" not in unparse(st.annotation)]
+        return fields, ci
+    if r[0] == "assign" and isinstance(r[1][1], ast.Call) and call_name(r[1][1]) == "namedtuple" and len(r[1][1].args) >= 2:
+        spec = r[1][1].args[1]
+        if isinstance(spec, ast.Constant) and isinstance(spec.value, str):
+            return spec.value.replace(",", " ").split(), None
+        if isinstance(spec, (ast.List, ast.Tuple)) and all(isinstance(e, ast.Constant) for e in spec.elts):
+            return [e.value for e in spec.elts], None
+    return None
+
+
+def project_record(call, attr, fn, project, _depth=0):
+    """The expression `<record constructor call>.<attr>` stands for: the argument given for a field, or the returned
+    expression of a simple property with its `self.<field>` reads replaced likewise; None when unknown."""
+    rf = record_fields(call, fn, project)
+    if rf is None or _depth > 4 or any(isinstance(a, ast.Starred) for a in call.args) or any(k.arg is None for k in call.keywords):
+        return None
+    fields, ci = rf
+    if attr in fields:
+        i = fields.index(attr)
+        if i < len(call.args):
+            return call.args[i]
+        for k in call.keywords:
+            if k.arg == attr:
+                return k.value
+        if ci is not None:
+            for st in ci.node.body:
+                if isinstance(st, ast.AnnAssign) and isinstance(st.target, ast.Name) and st.target.id == attr and st.value is not None:
+                    return st.value
+        return None
+    if ci is not None and attr in ci.props and ci.props[attr].getter is not None:
+        g = ci.props[attr].getter
+        body = [st for st in g.node.body if not (isinstance(st, ast.Expr) and isinstance(st.value, ast.Constant))]
+        if len(body) == 1 and isinstance(body[0], ast.Return) and body[0].value is not None and g.params:
+            me = g.params[0]
+            failed = []
+
+            class P(ast.NodeTransformer):
+                def visit_Attribute(self, n):
+                    if isinstance(n.value, ast.Name) and n.value.id == me:
+                        v = project_record(call, n.attr, fn, project, _depth + 1)
+                        if v is None:
+                            failed.append(n.attr)
+                            return n
+                        return copy.deepcopy(v)
+                    self.generic_visit(n)
+                    return n
+
+                def visit_Name(self, n):
+                    if n.id == me:
+                        failed.append(me)  # the record used as a whole: not a projection
+                    return n
+
+            out = P().visit(copy.deepcopy(body[0].value))
+            if not failed:
+                return out
+    return None
+
+
 class Scope:
     """Expansion of expressions of one (normalised) function: locals bound once -> their definition, names of the enclosing
     module / constants of the class -> their value."""
@@ -188,6 +261,24 @@ class Scope:
                     if v is not None:
                         return ast.copy_location(sc.expand(copy.deepcopy(v), _depth + 1), n)
                 self.generic_visit(n)
+                if isinstance(n.ctx, ast.Load) and isinstance(n.value, ast.Call):
+                    # a field / simple property of a record built in place (NamedTuple, dataclass): the value it was built from
+                    v = project_record(n.value, n.attr, sc.fn, sc.p)
+                    if v is not None:
+                        return ast.copy_location(copy.deepcopy(v), n)
+                return n
+
+            def visit_Subscript(self, n):
+                self.generic_visit(n)
+                i = n.slice.value if isinstance(n.slice, ast.Constant) else None
+                if isinstance(n.ctx, ast.Load) and isinstance(i, int) and not isinstance(i, bool) and i >= 0:
+                    if isinstance(n.value, ast.Tuple) and i < len(n.value.elts) and not any(isinstance(e, ast.Starred) for e in n.value.elts):
+                        return n.value.elts[i]  # position of a tuple built in place
+                    rf = record_fields(n.value, sc.fn, sc.p)
+                    if rf is not None and i < len(rf[0]):
+                        v = project_record(n.value, rf[0][i], sc.fn, sc.p)
+                        if v is not None:
+                            return ast.copy_location(copy.deepcopy(v), n)
                 return n
 
             def visit_Lambda(self, n):
@@ -260,14 +351,221 @@ def inline_aliases(fn_node):
     return ast.fix_missing_locations(new)
 
 
+# ---------------------------------------------------------------------- dispatch tables
+class _Cannot(Exception):
+    pass
+
+
+def _subst_names(stmts, mapping):
+    """Copies of statements with the (read) names of `mapping` replaced by expressions; `getattr(x, 'lit')` -> `x.lit`."""
+
+    class S(ast.NodeTransformer):
+        def visit_Name(self, n):
+            if isinstance(n.ctx, ast.Load) and n.id in mapping:
+                return ast.copy_location(copy.deepcopy(mapping[n.id]), n)
+            return n
+
+        def visit_Call(self, n):
+            self.generic_visit(n)
+            if isinstance(n.func, ast.Name) and n.func.id == "getattr" and len(n.args) == 2 and not n.keywords \
+                    and isinstance(n.args[1], ast.Constant) and isinstance(n.args[1].value, str) and n.args[1].value.isidentifier():
+                return ast.copy_location(ast.Attribute(value=n.args[0], attr=n.args[1].value, ctx=ast.Load()), n)
+            return n
+
+    return [S().visit(copy.deepcopy(s)) for s in stmts]
+
+
+def _loop_jumps(stmt) -> bool:
+    """The statement holds a break / continue of the enclosing loop (those of nested loops are their own)."""
+    if isinstance(stmt, (ast.Break, ast.Continue)):
+        return True
+    if isinstance(stmt, (ast.For, ast.AsyncFor, ast.While)):
+        return any(_loop_jumps(s) for s in stmt.orelse)
+    if isinstance(stmt, (ast.FunctionDef, ast.AsyncFunctionDef, ast.ClassDef)):
+        return False
+    for fld in ("body", "orelse", "finalbody"):
+        if any(_loop_jumps(s) for s in getattr(stmt, fld, []) or [] if isinstance(s, ast.stmt)):
+            return True
+    return any(_loop_jumps(s) for h in getattr(stmt, "handlers", []) or [] for s in h.body)
+
+
+def unroll_table_loops(fn, project=None, max_items: int = 8):
+    """Copy of a function in which every `for <targets> in <literal table>` — a tuple / list of tuples written in place,
+    bound once to a local, hoisted to the module or the class, or the `.items()` of such a dict — is written out entry by
+    entry, `break` / `continue` / `else` turned into the nesting they mean.  A table of (class, bound method) pairs scanned
+    with isinstance and left at the first hit becomes the if / elif chain it stands for.  Loops that cannot be written out
+    exactly (targets re-bound or read after the loop, jumps inside try / with) are left as they are."""
+    fn_node = fn.node
+    sc = Scope(fn, project)
+
+    def table_of(it):
+        e = sc.expand(it)
+        if isinstance(e, ast.Call) and isinstance(e.func, ast.Attribute) and e.func.attr == "items" and not e.args and isinstance(e.func.value, ast.Dict) \
+                and all(k is not None for k in e.func.value.keys):
+            return [ast.Tuple(elts=[k, v], ctx=ast.Load()) for k, v in zip(e.func.value.keys, e.func.value.values)]
+        if isinstance(e, (ast.Tuple, ast.List)) and not any(isinstance(x, ast.Starred) for x in e.elts):
+            return list(e.elts)
+        return None
+
+    def bind(target, item):
+        if isinstance(target, ast.Name):
+            return {target.id: item}
+        if isinstance(target, (ast.Tuple, ast.List)) and isinstance(item, (ast.Tuple, ast.List)) and len(target.elts) == len(item.elts) \
+                and not any(isinstance(x, ast.Starred) for x in list(target.elts) + list(item.elts)):
+            out = {}
+            for t, v in zip(target.elts, item.elts):
+                out.update(bind(t, v))
+            return out
+        raise _Cannot()
+
+    def seq(stmts, rest):
+        for i, s in enumerate(stmts):
+            if isinstance(s, ast.Break):
+                return stmts[:i]
+            if isinstance(s, ast.Continue):
+                return stmts[:i] + rest()
+            if isinstance(s, ast.If) and _loop_jumps(s):
+                after = stmts[i + 1:]
+                b = seq(list(s.body) + copy.deepcopy(after), rest)
+                o = seq(list(s.orelse) + copy.deepcopy(after), rest)
+                return stmts[:i] + [ast.copy_location(ast.If(test=s.test, body=b or [ast.copy_location(ast.Pass(), s)], orelse=o), s)]
+            if _loop_jumps(s):
+                raise _Cannot()
+        return stmts + rest()
+
+    def unroll(loop, outside_reads):
+        items = table_of(loop.iter)
+        if items is None or not (0 < len(items) <= max_items):
+            raise _Cannot()
+        names = {x.id for x in ast.walk(loop.target) if isinstance(x, ast.Name)}
+        if any(isinstance(x, ast.Name) and x.id in names and isinstance(x.ctx, (ast.Store, ast.Del)) for s in loop.body + loop.orelse for x in ast.walk(s)):
+            raise _Cannot()
+        if names & outside_reads:
+            raise _Cannot()
+        maps = [bind(loop.target, it) for it in items]
+
+        def build(k):
+            if k == len(maps):
+                return copy.deepcopy(loop.orelse)
+            return seq(_subst_names(loop.body, maps[k]), lambda: build(k + 1))
+
+        return build(0) or [ast.copy_location(ast.Pass(), loop)]
+
+    changed = [False]
+
+    def block(stmts):
+        out = []
+        for s in stmts:
+            for fld in ("body", "orelse", "finalbody"):
+                blk = getattr(s, fld, None)
+                if isinstance(blk, list) and blk and isinstance(blk[0], ast.stmt):
+                    setattr(s, fld, block(blk))
+            for h in getattr(s, "handlers", []) or []:
+                h.body = block(h.body)
+            if isinstance(s, ast.For):
+                inside = {id(x) for x in ast.walk(s)}
+                reads = {x.id for x in ast.walk(new) if isinstance(x, ast.Name) and isinstance(x.ctx, ast.Load) and id(x) not in inside}
+                try:
+                    out += unroll(s, reads)
+                    changed[0] = True
+                    continue
+                except _Cannot:
+                    pass
+            out.append(s)
+        return out
+
+    new = copy.deepcopy(fn_node)
+    if not any(isinstance(x, ast.For) for x in ast.walk(new)):
+        return fn
+    new.body = block(new.body)
+    if not changed[0]:
+        return fn
+    return replace(fn, node=ast.fix_missing_locations(new))
+
+
+def expand_table_calls(fn, project=None):
+    """Copy of a function in which a call through a table of callables looked up by a key — `TABLE[key](args)`,
+    `TABLE.get(key, default)(args)`, directly or through a local bound once to the looked-up callable, the table being a dict
+    literal with constant keys written in place, bound once to a local or hoisted to the module / the class — is written as the
+    `if key == k1: f1(args) elif key == k2: ...` chain it stands for (statement level: expression statements, assignments, returns)."""
+    sc = Scope(fn, project)
+
+    def lookup(func):
+        e = sc.expand(func)
+        table = key = default = None
+        if isinstance(e, ast.Subscript) and isinstance(e.value, ast.Dict):
+            table, key = e.value, e.slice
+        elif isinstance(e, ast.Call) and isinstance(e.func, ast.Attribute) and e.func.attr == "get" and isinstance(e.func.value, ast.Dict) and 1 <= len(e.args) <= 2 and not e.keywords:
+            table, key = e.func.value, e.args[0]
+            default = e.args[1] if len(e.args) == 2 else None
+        if table is None or not table.keys or len(table.keys) > 12 or not all(isinstance(k, ast.Constant) for k in table.keys):
+            return None
+        if not all(isinstance(v, (ast.Attribute, ast.Name)) for v in list(table.values) + ([default] if default is not None else [])):
+            return None
+        return table, key, default
+
+    def rewrite(s):
+        call = s.value if isinstance(s, (ast.Expr, ast.Assign, ast.Return)) and isinstance(getattr(s, "value", None), ast.Call) else None
+        if call is None or isinstance(call.func, ast.Attribute) and not isinstance(sc.expand(call.func), (ast.Subscript, ast.Call)):
+            return None
+        found = lookup(call.func)
+        if found is None:
+            return None
+        table, key, default = found
+
+        def with_func(f):
+            c = copy.deepcopy(s)
+            c.value.func = copy.deepcopy(f)
+            return c
+
+        if default is not None:
+            tail = [with_func(default)]
+        else:
+            tail = [ast.copy_location(ast.Raise(exc=ast.Call(func=ast.Name(id="KeyError", ctx=ast.Load()), args=[copy.deepcopy(key)], keywords=[]), cause=None), s)]
+        for k, v in reversed(list(zip(table.keys, table.values))):
+            test = ast.Compare(left=copy.deepcopy(key), ops=[ast.Eq()], comparators=[copy.deepcopy(k)])
+            tail = [ast.copy_location(ast.If(test=test, body=[with_func(v)], orelse=tail), s)]
+        return tail
+
+    changed = [False]
+
+    def block(stmts):
+        out = []
+        for s in stmts:
+            for fld in ("body", "orelse", "finalbody"):
+                blk = getattr(s, fld, None)
+                if isinstance(blk, list) and blk and isinstance(blk[0], ast.stmt):
+                    setattr(s, fld, block(blk))
+            for h in getattr(s, "handlers", []) or []:
+                h.body = block(h.body)
+            r = rewrite(s)
+            if r is not None:
+                changed[0] = True
+                out += r
+            else:
+                out.append(s)
+        return out
+
+    if not any(isinstance(x, ast.Dict) for x in ast.walk(fn.node)) and not any(isinstance(x, ast.Subscript) and isinstance(x.ctx, ast.Load) for x in ast.walk(fn.node)):
+        return fn
+    new = copy.deepcopy(fn.node)
+    sc = Scope(replace(fn, node=new), project)
+    new.body = block(new.body)
+    if not changed[0]:
+        return fn
+    return replace(fn, node=ast.fix_missing_locations(new))
+
+
 def nview(ctx, spec_or_fn):
-    """Normalised view of a function (private helpers expanded, hoisted literals substituted — ctx.view) with its path
-    aliases inlined."""
-    fn = ctx.view(spec_or_fn)
-    key = ("c04.nview", id(fn.node))
+    """Normalised view of a function: dispatch tables written out (loops over literal tables, calls through a dict of
+    callables), then helpers expanded and hoisted literals substituted (ctx.view), then path aliases inlined."""
+    fn0 = ctx.p.func(spec_or_fn) if isinstance(spec_or_fn, str) else spec_or_fn
+    key = ("c04.nview", id(fn0.node))
     if key not in ctx.cache:
-        ctx.cache[key] = replace(fn, node=inline_aliases(fn.node))
-    return ctx.cache[key]
+        pre = expand_table_calls(unroll_table_loops(fn0, ctx.p), ctx.p)
+        fn = ctx.view(pre)
+        ctx.cache[key] = (replace(fn, node=inline_aliases(fn.node)), pre, fn)  # the intermediate views are kept alive (caches are keyed by id)
+    return ctx.cache[key][0]
 
 
 # ---------------------------------------------------------------------- reaching definitions
